@@ -180,6 +180,40 @@ pub fn run_backoff(rep: &mut Report, thorough: bool) {
             }
         }
     }
+    // ---- long outages: many consecutive failures without a success (the stored delay must not
+    // keep growing past `max`), and resets at various phases; deterministic patterns, all tuples
+    // with a retry limit of 0 (never give up) or beyond the pattern
+    let long_n = if thorough { 2000usize } else { 400 };
+    let mut long_runs = 0u64;
+    for &initial in &initials {
+        for &max in &maxes {
+            for &mult in &mults {
+                for max_count in [0u32, u32::MAX, (long_n as u32) + 1] {
+                    let p = Params { initial, max, mult, max_count };
+                    for period in [0usize, 1, 7, 66, 67, 68, 129] {
+                        // `period` advances, then a reset, repeated; 0 = never reset
+                        let ops: Vec<bool> = (0..long_n).map(|i| period == 0 || (i + 1) % (period + 1) != 0).collect();
+                        evals += 1;
+                        long_runs += 1;
+                        let (_, bad) = run_seq(p, &ops);
+                        if let Some((k, d)) = bad {
+                            let k = format!("{k}.long-outage");
+                            // keep the replay short: only the prefix up to the failing operation is interesting, but the
+                            // pattern is regular, so record its parameters
+                            let r = json!({"kind": "backoff", "initial_ns": p.initial.as_nanos() as u64, "max_ns": p.max.as_nanos() as u64, "mult": p.mult, "max_count": p.max_count,
+                                "ops": ops.iter().map(|&a| if a { "advance" } else { "reset" }).collect::<Vec<_>>()});
+                            match found.iter_mut().find(|f| f.0 == k) {
+                                Some(f) => f.3 += 1,
+                                None => found.push((k, d, r, 1, ops.len())),
+                            }
+                        }
+                    }
+                }
+            }
+        }
+    }
+    rep.bounds.insert("backoff_long_outage_runs".into(), json!(long_runs));
+    rep.bounds.insert("backoff_long_outage_length".into(), json!(long_n));
     rep.evaluations += evals;
     rep.distinct_nontrivial += evals; // (tuple, sequence) pairs, distinct by construction
     rep.bounds.insert("backoff_tuples".into(), json!(tuples));
